@@ -412,3 +412,95 @@ Example ex_unit_stable_ok : forall fixed,
   print_unit fixed (norm_unit fixed ex_unit_stable) = print_unit fixed ex_unit_stable /\
   unit_eq (norm_unit fixed ex_unit_stable) (unqual_unit ex_unit_stable) = true.
 Proof. intros []; vm_compute; repeat split; reflexivity. Qed.
+
+(* ------------------------------------------------------------------------------------------------ *)
+(* the import block (coq/Print/Imports.v): printer.py's _Imports bookkeeping over the declaration model *)
+From PV Require Import Print.Imports Print.ImportsProofs.
+
+(* every member of typing that occurs in a printed type is counted (> 0) by the events the visitor records for that
+   type, and no count is driven below zero; for every type of the dialect, at any depth, whatever the use sites of
+   type variables record (members other than Tuple / Dict, which _FormatContainerContents decrements unconditionally) *)
+Theorem imports_complete_ty : forall bev env, (forall i k, (0 <= net k (bev i))%Z) ->
+  forall t c, wf env t = true -> forall k, tk k ->
+  (0 <= net k (tev_ty bev c t))%Z /\ (In (TName k) (print_ty c t) -> (0 < net k (tev_ty bev c t))%Z).
+Proof. exact cov_ty. Qed.
+Print Assumptions imports_complete_ty.
+
+(* the `from typing import` line lists exactly the recorded members whose count is not zero *)
+Theorem typing_line_characterised : forall evs k, In k (typing_targets evs) <-> In (EAdd k) evs /\ net k evs <> 0%Z.
+Proof. exact typing_target_iff. Qed.
+Print Assumptions typing_line_characterised.
+
+(* every module-qualified name handed to VisitNamedType has an imported prefix, and that prefix has its `import m` line *)
+Theorem imports_complete_modules : forall T iu n, In n (np_unit T (iu_unit iu)) ->
+  nt_chain T n = [] \/ exists q, In q (nt_chain T n) /\ In q (import_mods T iu) /\ get q (direct_imports T iu) = Some q.
+Proof.
+  intros T iu n H. destruct (modules_complete T iu n H) as [E|[q [Hq Hm]]]; [left; exact E|].
+  right. exists q. repeat split; [exact Hq | exact Hm | apply module_line_emitted, Hm].
+Qed.
+Print Assumptions imports_complete_modules.
+
+Theorem imports_sorted_unique : forall T rich iu,
+  Sorted.Sorted (fun a b => line_leb T a b = true) (import_lines T rich iu) /\
+  (forall evs, let tg := sort_targets T (map (fun k => (k, k)) (typing_targets evs)) in
+               Sorted.Sorted (fun a b => target_leb T a b = true) tg /\ NoDup tg).
+Proof. intros T rich iu. split; [apply lines_sorted | intros evs; apply typing_line_sorted_unique]. Qed.
+Print Assumptions imports_sorted_unique.
+
+(* the round trip of the whole text: the declarations are read back as norm_unit and the import lines as alias
+   declarations, PROVIDED every member of typing used by the printed declarations is on the typing line (the hypothesis
+   is evaluated on every generated unit by the harness; it is what imports_complete_ty gives site by site) *)
+Theorem parse_print_text_partial : forall T fixed rich iu,
+  wf_unit fixed (iu_unit iu) = true ->
+  (forall k, In (TName k) (stmts_tokens (print_unit fixed (iu_unit iu))) -> is_typing k = true ->
+             In k (typing_targets (typing_events rich iu))) ->
+  parse_text (print_text T fixed rich iu) = Some (norm_iunit T fixed rich iu).
+Proof. exact parse_print_text_lemma. Qed.
+Print Assumptions parse_print_text_partial.
+
+(* witnesses: ids 80.. are ordinary names (C, f, x, args, k, list) *)
+Definition T0 : ntab := mkNT (fun _ => []) (fun _ => false) (fun i => i).
+Definition seq_int : ty := Generic (NT 32) [Named (NP id_int)].
+(* class C: def f(self: C[Sequence[Sequence[int]]]) -> int *)
+Definition w_over : iunit :=
+  mkIU [] (mkU [] [] [] [mkCls 80 [] [] [] None [] []
+     [mkFn 81 [mkF (mkSig [mkParam id_self (Generic (NP 80) [Generic (NT 32) [seq_int]]) Regular false None] None None
+                          (Named (NP id_int))) []] KMethod false false false []]] []).
+(* def f(x: list[int]) -> int:  x = Union[int, float] *)
+Definition w_mut : iunit :=
+  mkIU [] (mkU [] [] [] [] [mkFn 81 [mkF (mkSig [mkParam 82 (Generic (NP 85) [Named (NP id_int)]) Regular false
+                                                          (Some (Union [Named (NP id_int); Named (NP id_float)]))]
+                                                 None None (Named (NP id_int))) []] KMethod false false false []]).
+(* k: Tuple[int]    def f( *args: int) -> int *)
+Definition w_tuple : iunit :=
+  mkIU [] (mkU [] [] [mkK 84 (Generic (NT id_Tuple) [Named (NP id_int)]) false] []
+              [mkFn 81 [mkF (mkSig [] (Some (83%N, Generic (NP id_tuple) [Named (NP id_int)])) None (Named (NP id_int))) []]
+                    KMethod false false false []]).
+
+Definition printed_typing (fixed : bool) (iu : iunit) : list N :=
+  filter is_typing (tok_names (stmts_tokens (print_unit fixed (iu_unit iu)))).
+
+(* minimality fails: an elided self annotation that mentions Sequence twice leaves `from typing import Sequence`
+   although nothing printed uses it (finding unused-typing-import-after-elided-annotation) *)
+Theorem imports_minimal_refuted : exists iu, wf_unit false (iu_unit iu) = true /\
+  In 32%N (typing_targets (typing_events false iu)) /\ ~ In 32%N (printed_typing false iu).
+Proof. exists w_over. split; [vm_compute; reflexivity|]. split; [vm_compute; auto|]. vm_compute. intros []. Qed.
+Print Assumptions imports_minimal_refuted.
+
+(* completeness fails for a mutated type that prints differently under in_parameter: the uses are recorded while
+   in_parameter is set (Union[int, float] collapses to float: no Union), the text comes from a copy afterwards *)
+Theorem imports_complete_mutated_refuted : exists iu,
+  In id_Union (printed_typing false iu) /\ ~ In id_Union (typing_targets (typing_events false iu)) /\ wf_imports iu = false.
+Proof. exists w_mut. split; [vm_compute; auto|]. split; [vm_compute; intros []|vm_compute; reflexivity]. Qed.
+Print Assumptions imports_complete_mutated_refuted.
+
+(* and for typing.Tuple next to a typed star-args parameter: _FormatContainerContents decrements "Tuple" *)
+Theorem imports_complete_tuple_refuted : exists iu,
+  In id_Tuple (printed_typing false iu) /\ ~ In id_Tuple (typing_targets (typing_events false iu)).
+Proof. exists w_tuple. split; [vm_compute; auto|]. vm_compute. intros []. Qed.
+Print Assumptions imports_complete_tuple_refuted.
+
+Example ex_imports_nonvacuous :
+  wf_imports w_over = true /\ import_lines T0 false w_over = [LFrom id_typing [(32%N, 32%N)]] /\
+  parse_text (print_text T0 false false w_over) = Some (norm_iunit T0 false false w_over).
+Proof. vm_compute. repeat split. Qed.
